@@ -63,7 +63,7 @@ class CostSpec(cost_spec.CostSpec):
                 else:  # Amount(per) - Number(per) -> Currency
                     self.raw_currency_comp = copy.deepcopy(amount.raw_currency)
                     self.raw_amount_comp = None
-            elif (currency := self.raw_currency_comp) and value:  # Currency + Number(per) -> Amount(per)
+            elif (currency := self.raw_currency_comp) and value and not self.raw_number_comp:  # Currency + Number(per) -> Amount(per)
                 self.raw_amount_comp = Amount.from_children(value, copy.deepcopy(currency))
                 self.raw_currency_comp = None
             else:  # Number(per)
@@ -77,6 +77,13 @@ class CostSpec(cost_spec.CostSpec):
                     copy.deepcopy(amount.raw_currency))
                 self.raw_compound_amount_comp = compound_amount
                 self.raw_amount_comp = None
+            elif (currency := self.raw_currency_comp) and (number := self.raw_number_comp):
+                # Number(total), Currency + Number(per) -> CompoundAmount
+                self._into_unit_cost(self.raw_cost)
+                self.raw_compound_amount_comp = CompoundAmount.from_children(
+                    value, copy.deepcopy(number), copy.deepcopy(currency))
+                self.raw_number_comp = None
+                self.raw_currency_comp = None
             elif currency := self.raw_currency_comp:  # Currency(total) + Number(per) -> Amount(per)
                 self._into_unit_cost(self.raw_cost)
                 amount = Amount.from_children(value, copy.deepcopy(currency))
@@ -112,7 +119,7 @@ class CostSpec(cost_spec.CostSpec):
                 else:  # Amount(total) - Number(total) -> Currency
                     self.raw_currency_comp = copy.deepcopy(amount.raw_currency)
                     self.raw_amount_comp = None
-            elif (currency := self.raw_currency_comp) and value:  # Currency + Number(total) -> Amount(total)
+            elif (currency := self.raw_currency_comp) and value and not self.raw_number_comp:  # Currency + Number(total) -> Amount(total)
                 self.raw_amount_comp = Amount.from_children(value, copy.deepcopy(currency))
                 self.raw_currency_comp = None
             else:  # Number(total)
@@ -125,6 +132,12 @@ class CostSpec(cost_spec.CostSpec):
                     copy.deepcopy(amount.raw_currency))
                 self.raw_compound_amount_comp = compound_amount
                 self.raw_amount_comp = None
+            elif (currency := self.raw_currency_comp) and (number := self.raw_number_comp):
+                # Number(per), Currency + Number(total) -> CompoundAmount
+                self.raw_compound_amount_comp = CompoundAmount.from_children(
+                    copy.deepcopy(number), value, copy.deepcopy(currency))
+                self.raw_number_comp = None
+                self.raw_currency_comp = None
             elif currency := self.raw_currency_comp:  # Currency(per) + Number(total) -> Amount(total)
                 self._into_total_cost(self.raw_cost)
                 amount = Amount.from_children(value, copy.deepcopy(currency))
